@@ -292,6 +292,27 @@ def line_lm(e1, e2, tau, theta, xs, ys, ks, e):
                                               ks_str(ks), prog_str(e))
 
 
+ROUTED = {"adamr": "adam", "sgdr": "sgd", "lmr": "lm"}
+
+
+def unroute(line):
+    """`adamr <route> …` -> `adam …`: the model (and the oracle) see the directly constructed optimizer with the
+    hyper-parameters the request carries; the executor builds it through the named public route"""
+    t = line.split(" ", 2)
+    if t[0] in ROUTED:
+        return ROUTED[t[0]] + " " + t[2]
+    return line
+
+
+def model_line(line):
+    return unroute(line)
+
+
+def routed(line, route):
+    t = line.split(" ", 1)
+    return "%sr %s %s" % (t[0], route, t[1])
+
+
 def corpus():
     L = []
     sq = powi(P(0), 2)
@@ -542,6 +563,113 @@ def contraction_to_origin(rng, count, cover, Kmax):
     return L
 
 
+ADAM_ROUTES_CFG = ["clone", "clone2", "used_clone", "set_stepsize", "clone_set"]
+ADAM_ROUTES_DEF = ["default", "with_stepsize", "default_set", "with_stepsize_clone"]
+SGD_ROUTES_CFG = ["clone", "used_clone", "set_stepsize", "clone_set"]
+SGD_ROUTES_DEF = ["default", "default_set", "default_clone"]
+LM_ROUTES_CFG = ["clone", "fields", "fields_clone"]
+LM_ROUTES_DEF = ["default", "default_clone"]
+
+
+def route_lines(rng, count, cover):
+    """Every problem is run through the direct constructor and through each peripheral route; the model is always the
+    directly constructed optimizer with the hyper-parameters of the request."""
+    L = []
+    for i in range(count):
+        which = ["adam", "sgd", "lm"][i % 3]
+        if which == "adam":
+            n = rng.randint(1, 3)
+            e = quadratic(rng, n, True) if rng.chance(0.6) else sepquad([1.0] * n, [0.5] * n)
+            th = [round(rng.normal() * 2, 2) for _ in range(n)]
+            a = rng.loguniform(1e-3, 0.3)
+            b1, b2, eps = rng.uniform(0.05, 0.85), rng.uniform(0.05, 0.95), rng.choice([1e-6, 1e-3, 1e-10])
+            ks = range(1, 16)
+            base = line_adam(a, b1, b2, eps, th, ks, e)
+            L.append(base)
+            for r in ADAM_ROUTES_CFG:
+                L.append(routed(base, r))
+            L.append(routed(line_adam(0.001, 0.9, 0.999, 1e-8, th, ks, e), "default"))
+            for r in ADAM_ROUTES_DEF[1:]:
+                L.append(routed(line_adam(a, 0.9, 0.999, 1e-8, th, ks, e), r))
+        elif which == "sgd":
+            n = rng.randint(1, 3)
+            e = quadratic(rng, n, True)
+            th = [round(rng.normal() * 2, 2) for _ in range(n)]
+            a, m, nest, _ = hyper_sgd(rng)
+            a = min(a, 0.05)
+            ks = range(1, 16)
+            base = line_sgd(a, m, nest, th, ks, e)
+            L.append(base)
+            for r in SGD_ROUTES_CFG:
+                L.append(routed(base, r))
+            L.append(routed(line_sgd(1e-5, 0.9, True, th, ks, e), "default"))
+            L.append(routed(line_sgd(1e-5, 0.9, True, th, ks, e), "default_clone"))
+            L.append(routed(line_sgd(a, 0.9, True, th, ks, e), "default_set"))
+        else:
+            fam, e, start, xs, ys = lm_problem(rng, {})
+            xs, ys = xs[:12], ys[:12]
+            e1, e2, tau = rng.choice([(1e-9, 1e-9, 1e-3), (1e-4, 1e-8, 1.0), (1e-7, 1e-5, 0.1)])
+            ks = range(0, 9)
+            base = line_lm(e1, e2, tau, start, xs, ys, ks, e)
+            L.append(base)
+            for r in LM_ROUTES_CFG:
+                L.append(routed(base, r))
+            for r in LM_ROUTES_DEF:
+                L.append(routed(line_lm(1e-6, 1e-6, 1e-2, start, xs, ys, ks, e), r))
+        cover["routes:" + which] = cover.get("routes:" + which, 0) + 1
+    return L
+
+
+def lm_hostile(rng, count, cover):
+    """Starts from which the first trial points overflow (exp), produce inf - inf / 0 * inf / x/0, or where a Jacobian
+    column underflows to 0 (singular damped normal matrix, NaN step): the gain ratio is NaN and the step must be
+    rejected; whatever happens the result must stay finite with rss <= rss(start)."""
+    L = []
+    for i in range(count):
+        kind = ["exp_over", "exp_vanish", "logistic_steep", "rational", "exp_diff", "exp_over", "logistic_steep",
+                "exp_prod"][i % 8]
+        n = rng.choice([5, 6, 8, 10, 12, 20])
+        noise = rng.choice([0.0, 0.01, 0.1])
+        if kind in ("exp_over", "exp_vanish", "exp_diff", "exp_prod"):
+            xmax = rng.choice([50.0, 140.0, 700.0, 8.0])
+            xs = sorted(round(rng.uniform(0.0, xmax), 2) for _ in range(n))
+            a_t, b_t = rng.uniform(0.5, 3), rng.uniform(-2.0, 0.5) / xmax
+            ys = [a_t * math.exp(b_t * x) + noise * rng.normal() for x in xs]
+            if kind == "exp_over":
+                e = mul(P(0), exp(mul(P(1), X)))
+                start = [round(a_t * rng.choice([1.0, 3.0, 0.2]), 2), rng.choice([5.0, 20.0, 100.0, 1.0, 0.5]) * rng.choice([1, 1, 0.1])]
+            elif kind == "exp_vanish":
+                e = mul(P(0), exp(mul(P(1), X))) if rng.chance(0.5) else add(mul(P(0), exp(mul(P(1), X))), mul(P(2), C(0.0)))
+                start = [round(a_t * rng.choice([1.0, 3.0]), 2), rng.choice([-200.0, -1000.0, -50.0])]
+                if e[0] == "add":
+                    start.append(1.0)
+                xs = [x + 4.0 for x in xs]
+            elif kind == "exp_diff":      # a exp(b x) - c exp(d x): inf - inf
+                e = sub(mul(P(0), exp(mul(P(1), X))), mul(P(2), exp(mul(P(3), X))))
+                start = [round(a_t * 2, 2), rng.choice([1.0, 5.0, 20.0]), round(a_t, 2), rng.choice([1.0, 5.0, 19.0])]
+            else:                          # a exp(b x) exp(-c x): inf * 0
+                e = mul(mul(P(0), exp(mul(P(1), X))), exp(neg(mul(P(2), X))))
+                start = [round(a_t, 2), rng.choice([5.0, 20.0, 100.0]), rng.choice([5.0, 20.0, 99.0])]
+        elif kind == "logistic_steep":
+            xs = sorted(round(rng.uniform(-3.0, 3.0), 2) for _ in range(n))
+            t = [rng.uniform(1, 4), rng.uniform(0.8, 3), rng.uniform(-1, 1)]
+            ys = [t[0] / (1 + math.exp(-t[1] * (x - t[2]))) + noise * rng.normal() for x in xs]
+            e = div(P(0), add(C(1.0), exp(mul(neg(P(1)), sub(X, P(2))))))
+            start = [round(t[0] * rng.choice([1.2, 0.5]), 2), rng.choice([50.0, 150.0, 500.0, 20.0]), round(t[2] + rng.choice([0.1, -1.0, 1.5]), 2)]
+        else:                              # a / (x - c) with c0 inside the data range (sometimes on a data point)
+            xs = sorted(round(rng.uniform(1.0, 5.0), 2) for _ in range(n))
+            a_t, c_t = rng.uniform(0.5, 3), rng.uniform(-1.0, 0.5)
+            ys = [a_t / (x - c_t) + noise * rng.normal() for x in xs]
+            e = div(P(0), sub(X, P(1)))
+            start = [round(a_t * rng.choice([1.0, 3.0]), 2), rng.choice([xs[n // 2], (xs[1] + xs[2]) / 2, xs[0] + 1e-9, round(rng.uniform(1.5, 4.5), 2)])]
+        ys = [round(y, 4) for y in ys]
+        e1, e2 = rng.choice([(1e-6, 1e-6), (0.0, 0.0), (1e-300, 1e-300), (1e-12, 1e-14)])
+        tau = rng.choice([1e-2, 1e-2, 1e-300, 1e-12, 1e6, 1e300, 1.0])
+        L.append(line_lm(e1, e2, tau, start, xs, ys, range(0, rng.choice([8, 15, 25]) + 1), e))
+        cover["lm-hostile:" + kind] = cover.get("lm-hostile:" + kind, 0) + 1
+    return L
+
+
 def gen(rng, tier):
     lines = []
     cover = {}
@@ -596,6 +724,12 @@ def gen(rng, tier):
     # changes run far below 1e-16
     for l in contraction_to_origin(rng, 36 if not thorough else 300, cover, 200 if not thorough else 400):
         lines.append(l)
+    # peripheral routes to a configured optimizer: clone, Default, with_stepsize, set_stepsize, public fields
+    for l in route_lines(rng, 12 if not thorough else 80, cover):
+        lines.append(l)
+    # LM from hostile starts: overflow / NaN trial points, vanishing Jacobian columns, extreme damping
+    for l in lm_hostile(rng, 40 if not thorough else 400, cover):
+        lines.append(l)
     # Levenberg-Marquardt
     for i in range(60 if not thorough else 450):
         fam, e, start, xs, ys = lm_problem(rng, cover)
@@ -620,6 +754,13 @@ def gen(rng, tier):
 
 
 def nontrivial(line, reply):
+    t0 = line.split(" ", 2)
+    pre = ""
+    if t0[0] in ROUTED:
+        pre = t0[1] + ":"
+        line = unroute(line)
+        r = nontrivial(line, reply)
+        return None if r is None else pre + r
     t = line.split()
     if not reply.startswith("="):
         return t[0] + ":panic"
@@ -989,9 +1130,17 @@ def check_lm(t, reply_toks, M, stats, FI=None):
     def rss_of(theta):
         r, _ = resjac(theta)
         return sum(v * v for v in r)
-    rss0 = rss_of(theta0)
+    hostile = False
+    try:
+        rss0 = rss_of(theta0)
+        if not mp.isfinite(rss0) or rss0 > mp.mpf(10) ** 300:
+            hostile = True
+    except Exception:
+        hostile = True   # the model is not even defined at the start (division by zero): only finiteness is judged
+    if hostile:
+        stats["lm_hostile_start"] = stats.get("lm_hostile_start", 0) + 1
     prev_rss = None
-    if nk == 1 and ks[0] >= 100 and n > p:
+    if not hostile and nk == 1 and ks[0] >= 100 and n > p:
         r = check_lm_ls(M, P_, resjac, theta0, [h2f(v) for v in reply_toks[:p]], ks[0], n, p, e1, e2, tau, stats)
         if r is not None:
             return r
@@ -1000,9 +1149,19 @@ def check_lm(t, reply_toks, M, stats, FI=None):
         th = [h2f(v) for v in reply_toks[idx * w:idx * w + p]]
         cov = [h2f(v) for v in reply_toks[idx * w + p:(idx + 1) * w]]
         if any(not math.isfinite(v) for v in th):
-            return ("lm-nonfinite-parameters", "maxsteps=%d returned non-finite parameters %r" % (k, th))
-        r, J = resjac(th)
-        rss = sum(v * v for v in r)
+            return ("lm-descent:nan", "maxsteps=%d returned non-finite parameters %r from the finite start %r (a NaN/inf "
+                    "trial point was accepted: its rss is not <= the rss at the start)" % (k, th, theta0))
+        if hostile:
+            continue
+        try:
+            r, J = resjac(th)
+            rss = sum(v * v for v in r)
+            if not mp.isfinite(rss):
+                raise ValueError
+        except Exception:
+            stats["lm_undefined_point"] = stats.get("lm_undefined_point", 0) + 1
+            prev_rss = None
+            continue
         # (1) never above the start (relative slack: the accept test compares rounded sums of n squares)
         slack = 64 * (n + 8) * EPS
         if rss > rss0 * (1 + slack) + mp.mpf(2) ** -1000:
@@ -1127,13 +1286,16 @@ def oracle(lines, impl):
     stats = {}
     seen = {}
     for i, (l, rep) in enumerate(zip(lines, impl)):
+        route = l.split(" ", 2)[1] if l.split(" ", 1)[0] in ROUTED else "new"
+        l = unroute(l)
         t = l.split()
         st, toks = parse_reply(rep)
         if st == "skip":
             continue
-        # determinism: the same request gives the same reply
+        # determinism / route independence: the same optimizer on the same problem gives the same reply, however the
+        # optimizer object was obtained (new, clone, default, with_stepsize, set_stepsize, public fields)
         if l in seen and impl[seen[l]].strip() != rep.strip() and not impl[seen[l]].startswith("#"):
-            fails.append(Failure(i, t[0] + "-nondeterministic", "same request as line %d, different reply" % seen[l]))
+            fails.append(Failure(i, t[0] + "-nondeterministic", "same request as line %d (route %s), different reply" % (seen[l], route)))
             continue
         seen.setdefault(l, i)
         kind = t[0]
